@@ -135,6 +135,9 @@ impl OodFrame {
         } else {
             None
         };
+        if reader.has_more_bytes() {
+            return Err(DeserializationError::UnconsumedBytes);
+        }
 
         // if there is a Lagrange kernel, we treat its associated entries separately above
         let aux_trace_width = aux_trace_width - (lagrange_kernel_frame.is_some() as usize);
